@@ -30,7 +30,7 @@ Proof.
     - apply align_mod; auto.
     - apply N.mod_0_l. lia. }
   destruct (rf_insert W m (b_num b) (b_bloom b)) as [[ws m']|] eqn:Hi; [|exact Hs].
-  cbn [fst snd after_mem apply_batches fold_left].
+  cbn [fst snd apply_batches fold_left].
   destruct (rf_insert_shape W m _ _ _ _ HW Hal Hi) as [_ Hws].
   assert (Hwo : Forall window_only ws). { destruct Hws as [->|[c [-> _]]]; repeat constructor. }
   destruct (store_fields d b ws Hwo) as (A & _).
@@ -86,14 +86,14 @@ Proof.
     - apply N.eqb_neq in Hz. replace (h - 1 + 1) with h by lia. rewrite !N.eqb_refl. reflexivity. }
   destruct ((0 <? rf_from m) && (h + 1 =? rf_from m)) eqn:Hc.
   - destruct (get_window d (align W h)); [|exact Hs0].
-    cbn [fst snd after_mem]. apply Hfin; auto. repeat constructor.
+    cbn [fst snd]. apply Hfin; auto. repeat constructor.
   - assert (Hle : rf_from m <= h).
     { apply andb_false_iff in Hc as [Hc|Hc].
       - apply N.ltb_ge in Hc. lia.
       - apply N.eqb_neq in Hc. lia. }
     replace ((h <? rf_from m) || (rf_to W m <? h)) with false.
     2:{ symmetry. apply orb_false_iff. split; [apply N.ltb_ge; lia|]. unfold rf_to. apply N.ltb_ge. lia. }
-    cbn [fst snd after_mem]. apply Hfin; auto. cbn [rf_from].
+    cbn [fst snd]. apply Hfin; auto. cbn [rf_from].
     symmetry. apply align_in; auto; lia.
 Qed.
 
@@ -104,7 +104,7 @@ Proof.
   - apply sync_store; auto.
   - apply sync_revert; auto.
   - (* Prune: memory untouched, height untouched (deletion-only writes) *)
-    unfold step. cbn [fst snd plan after_mem].
+    unfold step. cbn [fst snd plan].
     assert (Hh : forall bs d0, Forall (Forall (fun w => match w with WHeight _ => False | _ => True end)) bs ->
                  d_height (apply_batches d0 bs) = d_height d0).
     { induction bs; simpl; intros d0 H; auto. inversion H; subst. rewrite IHbs by auto.
@@ -128,7 +128,7 @@ Proof.
       apply Forall_app. split; [repeat constructor|]. destruct (e <? W); repeat constructor. }
     destruct (0 <? n); [destruct (header d (n - 1)); [apply Hg; repeat constructor|constructor]|apply Hg; constructor].
   - exact Hs.
-  - unfold step. cbn [fst snd plan after_mem]. destruct (rf_err m); exact Hs.
+  - unfold step. cbn [fst snd plan]. destruct (rf_err m); exact Hs.
 Qed.
 
 (* for restart-free histories starting in sync, ops_ok is implied by its environmental part *)
